@@ -83,7 +83,7 @@ func c08Unescape(out []byte) ([]byte, bool) {
 		case 't':
 			res = append(res, '\t')
 		case 'u':
-			if i+4 >= len(body)+0 && i+4 > len(body)-1 {
+			if i+4 >= len(body) {
 				return nil, false
 			}
 			h0, k0 := c08Hex(body[i+1])
